@@ -31,6 +31,7 @@ func (c *wrapConn) Write(b []byte) (int, error) {
 	n := atomic.AddInt32(&c.writes, 1)
 	f := atomic.LoadInt32(&c.failWriteAt)
 	if f != 0 && n >= f {
+		time.Sleep(30 * time.Millisecond) // a stalled transport: writers queue up meanwhile
 		return 0, errors.New("injected write failure")
 	}
 	return c.Conn.Write(b)
@@ -43,22 +44,35 @@ func (c *wrapConn) Close() error {
 
 type nProc struct {
 	mu        sync.Mutex
+	noClose   bool // the processor does not close the data connection itself (its own close is already in progress)
 	w         *WebsocketConnection
 	reports   int
 	delivered int
+	onReport  func() // runs inside ReportConnectionError (the SHIP layer being busy with the error)
+	deliveredAfterReport int
 }
 
 func (p *nProc) HandleIncomingWebsocketMessage(m []byte) {
 	p.mu.Lock()
 	p.delivered++
+	if p.reports > 0 {
+		p.deliveredAfterReport++
+	}
 	p.mu.Unlock()
 }
 
 func (p *nProc) ReportConnectionError(err error) {
 	p.mu.Lock()
 	p.reports++
+	noClose := p.noClose
+	hook := p.onReport
 	p.mu.Unlock()
-	p.w.CloseDataConnection(4001, "") // what ShipConnection.ReportConnectionError -> CloseConnection does
+	if hook != nil {
+		hook()
+	}
+	if !noClose {
+		p.w.CloseDataConnection(4001, "") // what ShipConnection.ReportConnectionError -> CloseConnection does
+	}
 }
 
 func (p *nProc) counts() (int, int) {
@@ -123,6 +137,9 @@ func H_C12_Native() {
 			zzvrt.Log("pair: " + err.Error())
 			continue
 		}
+		p.proc.mu.Lock()
+		p.proc.noClose = it%2 == 1
+		p.proc.mu.Unlock()
 		var wg sync.WaitGroup
 		var panicked atomic.Value
 		for i := 0; i < 4; i++ {
@@ -173,6 +190,17 @@ func H_C13_Native() {
 			continue
 		}
 		cause := it % 3
+		p.proc.mu.Lock()
+		p.proc.noClose = (it/3)%2 == 1
+		p.proc.mu.Unlock()
+		// while the SHIP layer handles the error the peer sends one more frame: it must not be delivered any more
+		pp := p
+		p.proc.mu.Lock()
+		p.proc.onReport = func() {
+			_ = pp.peer.WriteMessage(websocket.BinaryMessage, []byte{1, 0, 0})
+			time.Sleep(60 * time.Millisecond)
+		}
+		p.proc.mu.Unlock()
 		switch cause {
 		case 0: // write error
 			atomic.StoreInt32(&p.wc.failWriteAt, 1)
@@ -195,6 +223,10 @@ func H_C13_Native() {
 			zzvrt.Assert(reports == 0, "C13.error-reported-after-local-close")
 		}
 		zzvrt.Assert(reports <= 1, "C13.error-reported-twice")
+		p.proc.mu.Lock()
+		late := p.proc.deliveredAfterReport
+		p.proc.mu.Unlock()
+		zzvrt.Assert(late == 0, "C13.message-delivered-after-close")
 		zzvrt.Assert(atomic.LoadInt32(&p.wc.closed) >= 1, "C13.socket-not-closed")
 		p.cleanup()
 		if len(zzvrt.Failures) > 0 {
